@@ -28,8 +28,8 @@ ASSUMPTIONS = [
     "column order of a restricted read is not asserted (CSV/Parquet give the requested order, JSON the file order): results are compared as name -> values mappings",
     "casts are unambiguous ones: int->float, int->str, digit strings->int, ISO strings->datetime64[D]; the reference cast is NumPy astype / the given Python type",
 ]
-REACH = {"quick": {"mode:restrict": 1200, "mode:alias": 1000, "reader:df-csv": 150, "reader:df-json": 150, "reader:df-parquet": 150, "reader:lod-csv": 150,
-                   "reader:lod-json": 150, "reader:geojson": 100, "subset:reordered": 400, "alias:read_parquet": 100, "alias:read_csv": 100,
+REACH = {"quick": {"mode:restrict": 1200, "mode:alias": 1000, "reader:df-csv": 120, "reader:df-json": 120, "reader:df-parquet": 120, "reader:lod-csv": 120,
+                   "reader:lod-json": 120, "reader:geojson": 100, "subset:reordered": 400, "alias:read_parquet": 100, "alias:read_csv": 100,
                    "alias:read_json": 100, "alias:read_geojson": 100, "alias:read_npz": 100, "alias-nondefault-kw": 600}}
 
 READERS = ["df-csv", "df-json", "df-parquet", "lod-csv", "lod-json", "geojson"]
